@@ -22,7 +22,7 @@ BOUNDS = dict(quick=dict(groups="C4z; C4z+Inversion; C2z*TimeReversal+Inversion;
 EXPLANATION = ("The real run() is executed twice on a stand-in system with a real PointGroup: irreducible K-points + symmetrisation, and the full grid without. The per-K results are "
                "symbolic tensors T(K) that satisfy the assumption 'the system has the group', T(gK) = g.T(K) with the declared TR/inversion transforms (free atoms only on one "
                "representative per orbit, made invariant under its stabiliser). z3 decides that both runs and the explicit full-grid mean agree (1e-12, |data|<=1: rotation matrices are doubles).")
-ASSUMPTIONS = ["T(gK) = g.T(K) for every group element, imposed by construction through the real transform_tensor (the statement 'declared = actual parity' is C08, the group action is C09)",
+ASSUMPTIONS = ["T(gK) = g.T(K) for every group element, imposed by construction with the harness's own statement of the action (rotation of every Cartesian index by the proper part, then the declared TR / inversion behaviour by its meaning: factor, conjugation, transposition) - independent of PointSymmetry.transform_tensor / Transform.__call__, which run() uses",
                "grid compatible with the group (run() itself asserts this)", "|data| <= 1 for the tolerance obligations"]
 OUTSIDE = ["the calculators themselves (cut: per-K results are symbolic)", "tabulated per-k values only for the small groups I, TR, I+TR (C2z, Mz*TR thorough) of the shared C30 symmetric cases", "refinement together with symmetry (C10)",
            "groups / grids beyond the stated ones"]
@@ -48,30 +48,62 @@ def kkey(k):
     return tuple(int(x) for x in np.round((np.asarray(k, float) % 1) * 720720).astype(np.int64) % 720720)
 
 
-def build_family(sysobj, NKdiv, rank, nE, tTR, tInv, name="T"):
-    """covariant family {K: tensor}: free atoms on one representative per orbit, stabiliser-averaged, images by the real transform_tensor"""
+def own_action(g, T, rank, kTR, kInv):
+    """the harness's own statement of how a point-group operation acts on a tensor field value (independent of PointSymmetry.transform_tensor and
+    Transform.__call__): rotate every Cartesian index with the proper part R, then apply the declared TR / inversion behaviour by its meaning"""
+    T = np.asarray(T)
+    nd = T.ndim
+    R = lift(np.asarray(g.R, dtype=float)) if T.dtype == object else np.asarray(g.R, dtype=float)
+    for ax in range(nd - rank, nd):
+        T = np.moveaxis(np.tensordot(T, R, axes=([ax], [1])), -1, ax)          # T'[..a..] = sum_b R[a,b] T[..b..]
+
+    def declared(kind, X):
+        if kind == "ident":
+            return X
+        if kind == "odd":
+            return -X
+        if kind == "oddconj":
+            return -np.conjugate(X)
+        if kind == "trans":                                                      # transposes the two tensor indices
+            return np.swapaxes(X, -1, -2)
+        raise ValueError(kind)
+    if g.TR:
+        T = declared(kTR, T)
+    if g.Inv:
+        T = declared(kInv, T)
+    return T.view(SymArray) if T.dtype == object else T
+
+
+def build_family(sysobj, NKdiv, rank, nE, kTR, kInv, name="T", atoms_values=None):
+    """covariant family {K: tensor}: free atoms on one representative per orbit, made invariant under its stabiliser, images by own_action"""
     pg = sysobj.pointgroup
     N = np.array(NKdiv)
     pts = [np.array([x, y, z]) / N for x in range(N[0]) for y in range(N[1]) for z in range(N[2])]
     fam = {}
     atoms = []
+    ia = 0
     for ip, k0 in enumerate(pts):
         if kkey(k0) in fam:
             continue
-        A = symvec(f"{name}{ip}", (nE,) + (3,) * rank, real=False, lo=-1, hi=1)
+        if atoms_values is None:
+            A = symvec(f"{name}{ip}", (nE,) + (3,) * rank, real=False, lo=-1, hi=1)
+        else:
+            A = atoms_values(ia, (nE,) + (3,) * rank)
+        ia += 1
         atoms.append(A)
         images = [(g, g.transform_reduced_vector(k0, sysobj.recip_lattice)) for g in pg.symmetries]
         stab = [g for g, k in images if kkey(k) == kkey(k0)]
         T0 = None
         for g in stab:
-            t = g.transform_tensor(A, rank, transformTR=tTR, transformInv=tInv)
+            t = own_action(g, A, rank, kTR, kInv)
             T0 = t if T0 is None else T0 + t
-        T0 = (T0 / len(stab)).view(SymArray)
+        T0 = T0 / len(stab)
+        T0 = T0.view(SymArray) if T0.dtype == object else T0
         for g, k in images:
             kk = kkey(k)
             assert kk in {kkey(p) for p in pts}, "grid not invariant under the group"
             if kk not in fam:
-                fam[kk] = np.asarray(g.transform_tensor(T0, rank, transformTR=tTR, transformInv=tInv)).view(SymArray)
+                fam[kk] = own_action(g, T0, rank, kTR, kInv)
     return fam, atoms, pts
 
 
@@ -108,7 +140,7 @@ def case_sym(rec, gens, latt, NKdiv, rank, tTR, tInv):
     shadow([PS])
     sysobj = SysG(gens, LATT[latt])
     nE = 2
-    fam, atoms, pts = build_family(sysobj, NKdiv, rank, nE, TRANSFORMS[tTR], TRANSFORMS[tInv])
+    fam, atoms, pts = build_family(sysobj, NKdiv, rank, nE, tTR, tInv)
 
     def body(rec):
         rec.witness = lambda env: dict(gens=gens, latt=latt, NKdiv=NKdiv, rank=rank, tTR=tTR, tInv=tInv, atoms=[env.arr(a) for a in atoms])
@@ -171,25 +203,14 @@ def replay(rec):
     NKdiv = tuple(w["NKdiv"])
     rank, nE = w["rank"], 2
     tTR, tInv = TRANSFORMS[w["tTR"]], TRANSFORMS[w["tInv"]]
-    pg = sysobj.pointgroup
-    N = np.array(NKdiv)
-    pts = [np.array([x, y, z]) / N for x in range(N[0]) for y in range(N[1]) for z in range(N[2])]
-    fam = {}
-    ia = 0
     rng = np.random.RandomState(7)
-    for k0 in pts:
-        if kkey(k0) in fam:
-            continue
-        A = unarr(w["atoms"][ia]).astype(complex) if ia < len(w["atoms"]) else np.zeros((nE,) + (3,) * rank, complex)
+
+    def vals(ia, shape):
+        A = unarr(w["atoms"][ia]).astype(complex) if ia < len(w["atoms"]) else np.zeros(shape, complex)
         if np.abs(A).max() == 0:
-            A = rng.uniform(-1, 1, A.shape) + 1j * rng.uniform(-1, 1, A.shape)
-        ia += 1
-        images = [(g, g.transform_reduced_vector(k0, sysobj.recip_lattice)) for g in pg.symmetries]
-        stab = [g for g, k in images if kkey(k) == kkey(k0)]
-        T0 = sum(g.transform_tensor(A, rank, transformTR=tTR, transformInv=tInv) for g in stab) / len(stab)
-        for g, k in images:
-            if kkey(k) not in fam:
-                fam[kkey(k)] = g.transform_tensor(T0, rank, transformTR=tTR, transformInv=tInv)
+            A = rng.uniform(-1, 1, shape) + 1j * rng.uniform(-1, 1, shape)
+        return A
+    fam, _, pts = build_family(sysobj, NKdiv, rank, nE, w["tTR"], w["tInv"], atoms_values=vals)
     calc = make_calc(fam, nE, rank, tTR, tInv)
     old = D.ResultDict.savedata
     D.ResultDict.savedata = lambda *a, **k: None
